@@ -28,6 +28,9 @@ def dispatch (line : String) : String :=
   | "lintwf" :: args => Driver.ParseWfD.handleLint args
   | "exprwf" :: args => Driver.ParseWfD.handleExpr args
   | "callmeta" :: args => Driver.ParseWfD.handleCallMeta args
+  | "lintwfp" :: args => Driver.ParseWfD.handleLintP args
+  | "exprwfp" :: args => Driver.ParseWfD.handleExprP args
+  | "actionmeta" :: args => Driver.ParseWfD.handleActionMeta args
   | "lintsort" :: args => Driver.LintD.handleSort args
   | "relpath" :: args => Driver.LintD.handleRel args
   | "projectat" :: args => Driver.LintD.handleProjectAt args
